@@ -719,4 +719,10 @@ def run(prog, tier):
     lock_rule(prog, res)
     setters.rule(prog, res, {G, PR}, minimum=3)
     overload_hazard_rule(prog, res)
+    # the element a later look-up by name finds is the one the replace-or-append search would replace: both are exact-name,
+    # first-match searches (C11's index-by-name rule on Group::parameterIdx / Parameters::groupIdx)
+    import p_c11
+    for o in p_c11.run(prog, 'quick').obs:
+        if o['rule'] == 'index-by-name' and ('parameterIdx' in o.get('function', '') or 'groupIdx' in o.get('function', '')):
+            res.obs.append(dict(o, rule='lookup-agrees'))
     return res
